@@ -128,7 +128,7 @@ struct Compiler {
     upvalues: Vec<Upvalue>,
     scope_depth: usize,
     lambda_count: usize,
-    in_try_block: bool,
+    try_depth: usize,
     loop_stack: Vec<(usize, usize)>,
     break_stack: Vec<Vec<usize>>,
 }
@@ -163,7 +163,7 @@ impl Compiler {
             upvalues: Vec::new(),
             scope_depth: 0,
             lambda_count: 0,
-            in_try_block: false,
+            try_depth: 0,
             loop_stack: Vec::new(),
             break_stack: Vec::new(),
         }
@@ -864,9 +864,7 @@ impl<'a> Parser<'a> {
             }
             self.expression();
             self.consume(TokenKind::SemiColon, "Expected ';' after return value.");
-            if self.compiler().in_try_block {
-                self.emit_byte(OpCode::JumpFinally as u8);
-            }
+            self.emit_jumps_to_finally();
             self.emit_byte(OpCode::Return as u8);
         }
     }
@@ -911,8 +909,8 @@ impl<'a> Parser<'a> {
     }
 
     fn try_statement(&mut self) {
-        let prev_in_try_block = self.compiler().in_try_block;
-        self.compiler_mut().in_try_block = true;
+        let prev_try_depth = self.compiler().try_depth;
+        self.compiler_mut().try_depth = prev_try_depth + 1;
 
         self.emit_byte(OpCode::PushExcHandler as u8);
         let handler_catch_arg_pos = self.chunk().code.len();
@@ -924,7 +922,7 @@ impl<'a> Parser<'a> {
         self.begin_scope();
         self.block();
         self.end_scope();
-        self.compiler_mut().in_try_block = prev_in_try_block;
+        self.compiler_mut().try_depth = prev_try_depth;
 
         self.emit_byte(OpCode::PopExcHandler as u8);
         let catch_jump_pos = self.emit_jump(OpCode::Jump);
@@ -1132,10 +1130,16 @@ impl<'a> Parser<'a> {
         } else {
             self.emit_byte(OpCode::Nil as u8);
         }
-        if self.compiler().in_try_block {
+        self.emit_jumps_to_finally();
+        self.emit_byte(OpCode::Return as u8);
+    }
+
+    /// A return leaves through the finally block of every try statement whose try block encloses
+    /// it: one JumpFinally per nesting level, innermost first. Each one resumes at the next.
+    fn emit_jumps_to_finally(&mut self) {
+        for _ in 0..self.compiler().try_depth {
             self.emit_byte(OpCode::JumpFinally as u8);
         }
-        self.emit_byte(OpCode::Return as u8);
     }
 
     fn emit_scope_end(&mut self, pop_locals: bool, scope_depth: usize) {
